@@ -43,6 +43,21 @@ impl Fill for Box<u64> {
     }
 }
 
+/// An over-aligned filler: the element's alignment (64) exceeds its natural one, so the slot stride
+/// contains padding and a hand-computed address would be misaligned.
+#[repr(align(64))]
+pub struct A64(u64);
+
+impl Fill for A64 {
+    const HEAP: bool = false;
+    fn new(id: u64) -> Self {
+        A64(id ^ 0x5A5A_5A5A_0F0F_0F0F)
+    }
+    fn ok(&self, id: u64) -> bool {
+        self.0 == id ^ 0x5A5A_5A5A_0F0F_0F0F
+    }
+}
+
 /// The borrowed form of a key (like `str` for `String`).
 #[derive(Clone, Copy, Debug)]
 #[repr(transparent)]
